@@ -80,6 +80,12 @@ Proof. exact no_busy_loop. Qed.
 Theorem c17_webc_good_init : forall evs, good init (mk_inner evs).
 Proof. exact good_init. Qed.
 
+(* EVERY script whatsoever (malformed bodies, errors and HTTP trailers of the wrapped body
+   included) is drained within the poll budget [#events + #bytes/5 + 4]: the consumer reaches the
+   end, an error (or the explicit capacity panic) - never a hang *)
+Theorem c17_webc_never_hangs : forall evs, ~ In OOutOfFuel (run evs).
+Proof. exact never_hangs. Qed.
+
 (* an error is final *)
 Theorem c17_webc_error_final : forall s i fuel e s' i',
   (length (i_evs i) + 3 <= fuel)%nat -> good s i ->
@@ -100,6 +106,13 @@ Theorem c17_webc_panic_needs_many_lines : forall fuel s i s' i',
   poll_frame fuel s i = (OPanic, s', i') ->
   exists fr, HM_MAX_NAMES < nlen (split_crlf [] (ndrop 5 fr)).
 Proof. exact panic_needs_many_lines. Qed.
+
+(* the capacity of http::HeaderMap, exactly: [n] lines with distinct valid names panic iff
+   n > 24576 (observed on the real crate as kind observe.header_map_capacity) *)
+Theorem c17_webc_header_map_capacity : forall n, N.of_nat n <= 456976 ->
+  decode_trailers_frame (trailers_frame (many_lines n 0)) =
+  if HM_MAX_NAMES <? N.of_nat n then DPanic else DOk (Some (many_lines n 0)).
+Proof. exact decode_many_names. Qed.
 
 (* ---------- the hypotheses are satisfiable on non-trivial values ---------- *)
 (* frames "hi" (flag 0), empty (flag 1), a payload that looks like a trailers frame header;
@@ -122,8 +135,12 @@ Example c17_premises_hold :
   only_data_or_pending ex_evs = true /\
   concat (datas ex_evs) = fcat ex_frames ++ trailers_frame ex_tl.
 Proof.
-  repeat split; try (vm_compute; reflexivity); try (vm_compute; discriminate).
-  repeat constructor; cbn; try (left; reflexivity); try (right; reflexivity); vm_compute; discriminate.
+  split.
+  { unfold frames_ok, ex_frames, msg_ok. repeat apply Forall_cons; try apply Forall_nil; cbn [fst snd];
+      (split; [auto|vm_compute; discriminate]). }
+  split; [vm_compute; reflexivity|]. split; [vm_compute; reflexivity|].
+  split; [vm_compute; discriminate|]. split; [vm_compute; discriminate|].
+  split; vm_compute; reflexivity.
 Qed.
 
 Example c17_run_example :
@@ -161,3 +178,5 @@ Print Assumptions c17_webc_no_busy_loop.
 Print Assumptions c17_webc_error_final.
 Print Assumptions c17_webc_end_final.
 Print Assumptions c17_webc_panic_needs_many_lines.
+Print Assumptions c17_webc_never_hangs.
+Print Assumptions c17_webc_header_map_capacity.
